@@ -10,6 +10,9 @@ import (
 	"runtime"
 	"strconv"
 	"strings"
+	"sync"
+	"sync/atomic"
+	"time"
 )
 
 func hxList(parts []string) string {
@@ -71,6 +74,64 @@ func twice(h func(a []string) string) func(a []string) string {
 }
 
 func init() {
+	// codec conc <ms> <op>:<hex text>…  (op = uri, via, route, rr, from, to): the proxy decodes on several goroutines at
+	// once (every UDP listener, every TCP connection, every listener's loop). Each text is first decoded alone; then four
+	// goroutines decode the texts over and over at the same time: every report must equal the one obtained alone.
+	vReg("codec conc", func(a []string) string {
+		ms, _ := strconv.Atoi(a[0])
+		type item struct {
+			op  string
+			arg []string
+		}
+		var items []item
+		var want []string
+		for _, x := range a[1:] {
+			k := strings.IndexByte(x, ':')
+			if k < 0 {
+				continue
+			}
+			h, ok := vOps["codec "+x[:k]]
+			if !ok {
+				continue
+			}
+			it := item{op: "codec " + x[:k], arg: []string{x[k+1:]}}
+			items = append(items, it)
+			want = append(want, h(it.arg))
+		}
+		if len(items) == 0 {
+			return "bad-op"
+		}
+		var stop, bad int32
+		var wg sync.WaitGroup
+		for g := 0; g < 4; g++ {
+			wg.Add(1)
+			go func(g int) {
+				defer wg.Done()
+				defer func() {
+					if r := recover(); r != nil {
+						atomic.StoreInt32(&bad, 2)
+					}
+				}()
+				for i := g; atomic.LoadInt32(&stop) == 0; i++ {
+					k := i % len(items)
+					if vOps[items[k].op](items[k].arg) != want[k] {
+						atomic.StoreInt32(&bad, 1)
+						return
+					}
+				}
+			}(g)
+		}
+		time.Sleep(time.Duration(ms) * time.Millisecond)
+		atomic.StoreInt32(&stop, 1)
+		wg.Wait()
+		switch atomic.LoadInt32(&bad) {
+		case 1:
+			return "decoded-differently-under-concurrency"
+		case 2:
+			return "panic-under-concurrency"
+		}
+		return "ok"
+	})
 	// ---- stdlib micro-correspondence ----
 	vReg("std split", func(a []string) string {
 		return hxList(strings.Split(unhx(a[1]), unhx(a[0])))
